@@ -11,7 +11,7 @@ Line protocol for K_C05 (one op per line, same `step` the theorems are about).
 
 Answer: `<ok|refused> p=<cycle pending 0|1> slots=<n> sel=<ids started by this cycle, priority order|-> q=<ids of
 _get_queued_transfers()[1] after the op> seen=<for a cycle: u:STATUS/friend/priv the scheduler read for every user
-with a transfer|-> known=<u:STATUS/priv of every user object the user manager holds after the op> | <id>:<STATE> ...`
+with an unfinished transfer|-> known=<u:STATUS/priv of every user object the user manager holds after the op> | <id>:<STATE> ...`
 -/
 open AioslskVerif.Sched
 
@@ -25,18 +25,37 @@ def ids (l : List Xfer) : String :=
 
 def b01 (b : Bool) : String := if b then "1" else "0"
 
+/-- K_C05 uses user numbers below this bound; larger ones are rejected by the parser -/
+def maxUsers : Nat := 8
+
+/-- The per-user functions of the state are re-tabulated after every step (same values for every user the
+parser admits): without this every look-up walks through the closures of all earlier steps. -/
+def retabulate (s : Sched) : Sched :=
+  let fr := (List.range maxUsers).map s.friends
+  let pv := (List.range maxUsers).map s.privSet
+  let st := (List.range maxUsers).map s.store
+  let rf := (List.range maxUsers).map s.ref
+  { s with
+    friends := fun u => if u < maxUsers then fr.getD u false else s.friends u
+    privSet := fun u => if u < maxUsers then pv.getD u false else s.privSet u
+    store := fun u => if u < maxUsers then st.getD u none else s.store u
+    ref := fun u => if u < maxUsers then rf.getD u none else s.ref u }
+
 /-- users (small numbers in K_C05) that have a transfer -/
-def usersOf (s : Sched) : List Nat := (List.range 16).filter (fun u => s.xs.any (·.user == u))
+def usersOf (s : Sched) : List Nat := (List.range maxUsers).filter (fun u => s.xs.any (·.user == u))
 
 def dash (l : List String) : String := if l.isEmpty then "-" else ",".intercalate l
 
+/-- what the scheduler read at a cycle, for the users that have an unfinished transfer (for a user whose transfers
+are all finalized the reading cannot matter — nothing of theirs can be selected — and the real untrack request
+is served one loop step after the decision) -/
 def seenStr (s : Sched) : String :=
-  dash ((usersOf s).map (fun u =>
+  dash (((usersOf s).filter s.unfinishedUser).map (fun u =>
     let i := s.users u
     s!"{u}:{i.status.name}/{b01 i.friend}/{b01 i.privileged}"))
 
 def knownStr (s : Sched) : String :=
-  dash ((List.range 16).filterMap (fun u => (s.store u).map (fun k => s!"{u}:{k.status.name}/{b01 k.privileged}")))
+  dash ((List.range maxUsers).filterMap (fun u => (s.store u).map (fun k => s!"{u}:{k.status.name}/{b01 k.privileged}")))
 
 def render (s : Sched) (res : String) (sel : List Xfer) (seen : String) : String :=
   let ents := " ".intercalate (s.xs.map (fun x => s!"{x.id}:{stName x.st}"))
@@ -82,6 +101,11 @@ def parseOp : List String → Option Op
   | ["privList", l] => (parseUsers l).map .privList
   | _ => none
 
+def opUsersOk : Op → Bool
+  | .addUpload u | .addDownload u | .friend u _ | .report u _ _ | .reply u _ => u < maxUsers
+  | .privList l => l.all (· < maxUsers)
+  | _ => true
+
 def handle (s : Sched) (line : String) : Sched × String :=
   match (line.splitOn " ").filter (· ≠ "") with
   | ["reset", n] =>
@@ -92,12 +116,13 @@ def handle (s : Sched) (line : String) : Sched × String :=
     match parseOp toks with
     | none => (s, "bad-op")
     | some op =>
+      if !(opUsersOk op) then (s, "bad-op") else
       let ok := s.accepts op
       -- the decision of a cycle is taken after the tracking half: `s.track`
       let (sel, seen) := match op with
         | .cycle => if ok then (s.track.select, seenStr s.track) else ([], "-")
         | _ => ([], "-")
-      let s' := step s op
+      let s' := retabulate (step s op)
       (s', render s' (if ok then "ok" else "refused") sel seen)
 
 partial def loop (h : IO.FS.Stream) (s : Sched) : IO Unit := do
